@@ -47,6 +47,11 @@ def apply_dense(op, DA, DB):
     return {"add": DA + DB, "sub": DA - DB, "mul": DA * DB, "matmul": DA @ DB}[op]
 
 
+def jax_tree_cast(obj, dtype):
+    import jax
+    return jax.tree_util.tree_map(lambda a: a.astype(dtype), obj)
+
+
 def run(chk):
     chk.assumptions += [
         "model = hand-written Gallina mirror of ops.py and of self_add/self_mul/gram in core.py, tied by exact-integer correspondence",
@@ -132,6 +137,25 @@ def run(chk):
                 oracle_bad.append(dict(case, expected=(DA.T @ DA).tolist(), observed=dense.reshape(n, n).tolist(),
                                        kind=gen.KINDS[meta[1]]))
 
+    # data types: integer-typed generators scaled by non-integer scalars (Python float, numpy scalar, 0-d array), both sides
+    import jax.numpy as jnp
+    from tinygp.solvers.quasisep import core as qcore
+    for ka in gen.KINDS:
+        sa = gen.rand_qsm(rng, ka, 3, 2, 1, "int")
+        A_int = jax_tree_cast(gen.qsm_impl(sa), jnp.int64)
+        DA = gen.den_oracle(sa)
+        for cname, cval in (("2.5", 2.5), ("0.5", 0.5), ("np.float64(-1.75)", np.float64(-1.75)), ("jnp 0-d 1.25", jnp.asarray(1.25))):
+            for side, f in (("c * A", lambda c, A: c * A), ("A * c", lambda c, A: A * c)):
+                hist["int-scale"] = hist.get("int-scale", 0) + 1
+                try:
+                    got = np.asarray(f(cval, A_int).to_dense(), dtype=float)
+                except Exception as e:  # noqa: BLE001
+                    oracle_bad.append(dict(op=f"{side} with integer-typed generators", kind=ka, c=cname, observed=f"raised {type(e).__name__}: {str(e)[:80]}",
+                                           expected=(float(cval) * DA).tolist()))
+                    continue
+                if not np.array_equal(got, float(cval) * DA):
+                    oracle_bad.append(dict(op=f"{side} with integer-typed generators", kind=ka, c=cname, a=gen.spec_json(sa),
+                                           expected=(float(cval) * DA).tolist(), observed=got.tolist()))
     # closure: results are valid operands (expression trees of depth 2-3 built from results)
     tree_n = 0
     for i in range(0, len(results_for_trees) - 1, 2):
